@@ -23,6 +23,7 @@ Definition filter_closed (Q : str -> Prop) (f : filter) : Prop :=
   | FSlice st ln => forall t, Q t -> Q (liquid_slice t st ln)
   | FSplit _ => forall s sep, Q s -> Forall Q (py_split s sep)
   | FOpaque OUrlDecode _ => forall t, Q t -> Q (plus_to_space t)
+  | FTrans _ _ _ _ => forall r t, Q t -> (forall k, Q (r k)) -> Q (format_message r t)
   | _ => True
   end.
 
@@ -93,9 +94,88 @@ Section Generic.
     Lemma Forall_slice {A} (P : A -> Prop) l a b : Forall P l -> Forall P (liquid_slice l a b).
     Proof. intro H. unfold liquid_slice, py_slice. apply Forall_firstn, Forall_skipn. assumption. Qed.
 
-    Lemma apply_filter_inv f v : filter_ok pt pf f = true -> Inv v -> Inv (apply_filter true look f v).
+    Lemma out_str_Q s : good s -> Q (out_str true s).
+    Proof. apply esc_arg_Q. Qed.
+
+    Lemma to_liquid_string_Q v : Inv v -> Q (to_liquid_string true v).
     Proof.
-      intros Hok Hv. unfold filter_ok in Hok. apply andb_true_iff in Hok. destruct Hok as [Hpf Hargs].
+      destruct v; simpl; auto.
+      - apply esc_arg_Q.
+      - intro H. apply concat_Q. induction H; simpl; constructor; auto. apply esc_arg_Q; assumption.
+    Qed.
+
+    (* registered by hand, the value a translation filter is applied to is trusted: it is a template literal, hence a Markup *)
+    Definition trusted (f : filter) (v : value) : Prop :=
+      match f with FTrans _ false _ _ => exists s, v = VS s /\ sf s = true | _ => True end.
+
+    Lemma tr_left_Q aem v : Inv v -> (aem = false -> exists s, v = VS s /\ sf s = true) -> Q (tr_left true aem v).
+    Proof.
+      intros Hv Ht. unfold tr_left. destruct aem; simpl.
+      - apply to_liquid_string_Q. assumption.
+      - destruct (Ht eq_refl) as (s & -> & Hs). simpl. unfold out_str. apply Hv. assumption.
+    Qed.
+
+    Lemma tr_plural_Q k aem a : atom_ok pt a = true -> (aem = false -> is_lit a = true) -> Q (tr_plural true look TrCurrent k aem a).
+    Proof.
+      intros Ha Hl. unfold tr_plural. destruct aem; simpl.
+      - apply to_liquid_string_Q. apply eval_atom_inv. assumption.
+      - specialize (Hl eq_refl). destruct a; [|discriminate]. simpl. unfold out_str; simpl. apply q_lit. assumption.
+    Qed.
+
+    Lemma tr_resolve_Q aem kw name : forallb (fun b => atom_ok pt (snd b)) kw = true -> Q (tr_resolve true look TrCurrent aem kw name).
+    Proof.
+      intro Hkw. unfold tr_resolve. apply to_liquid_string_Q.
+      destruct (alookup name (tr_kwv true look kw)) eqn:E; [|apply look_inv].
+      unfold tr_kwv in E. induction kw as [|[k a] r IH]; simpl in *; [discriminate|].
+      apply andb_true_iff in Hkw. destruct Hkw as [Ha Hr].
+      destruct (str_eqb name k); [inversion E; subst; apply eval_atom_inv; assumption|auto].
+    Qed.
+
+    Lemma alookup_forallb {A} (P : A -> bool) x (l : list (str * A)) v :
+      forallb (fun b => P (snd b)) l = true -> alookup x l = Some v -> P v = true.
+    Proof.
+      induction l as [|[k a] r IH]; simpl; [discriminate|]. intros H E. apply andb_true_iff in H. destruct H as [Ha Hr].
+      destruct (str_eqb x k); [inversion E; subst; exact Ha|auto].
+    Qed.
+
+    Lemma alookup_plural_lit (kw : list (str * atom)) pl :
+      forallb (fun b => is_lit (snd b) || negb (str_eqb (fst b) [112; 108; 117; 114; 97; 108])) kw = true ->
+      alookup s_plural kw = Some pl -> is_lit pl = true.
+    Proof.
+      induction kw as [|[k a] r IH]; [discriminate|]. intros H E. cbn [forallb fst snd] in H. apply andb_true_iff in H. destruct H as [Ha Hr].
+      cbn [alookup] in E. destruct (str_eqb s_plural k) eqn:Ek.
+      - injection E as Epl. subst pl. apply str_eqb_eq in Ek. subst k. unfold s_plural in Ha. rewrite str_eqb_refl in Ha.
+        destruct (is_lit a); [reflexivity|discriminate Ha].
+      - auto.
+    Qed.
+
+    Lemma tr_text_Q k aem args kw v t :
+      Inv v -> (aem = false -> exists s, v = VS s /\ sf s = true) ->
+      forallb (atom_ok pt) args = true -> forallb (fun b => atom_ok pt (snd b)) kw = true ->
+      (aem = false -> msg_args_lit k args = true /\
+                      forallb (fun b => is_lit (snd b) || negb (str_eqb (fst b) [112; 108; 117; 114; 97; 108])) kw = true) ->
+      tr_text true look TrCurrent k aem args kw v = Some t -> Q t.
+    Proof.
+      intros Hv Ht Hargs Hkw Hlit H.
+      pose proof (tr_left_Q aem v Hv Ht) as HL.
+      assert (Hpick : forall pl n, atom_ok pt pl = true -> (aem = false -> is_lit pl = true) -> Q (tr_pick true look TrCurrent k aem v pl n)).
+      { intros pl n Hp Hpl. unfold tr_pick. destruct (Nat.eqb n 1); [exact HL|apply tr_plural_Q; assumption]. }
+      assert (Ht_text : Q (tr_t_text true look TrCurrent aem kw v)).
+      { unfold tr_t_text. destruct (alookup s_plural kw) as [pl|] eqn:Epl; [|exact HL].
+        destruct (t_count _); [|exact HL]. destruct (eval_atom true look pl); try exact HL;
+        (unfold tr_pick; destruct (Nat.eqb n 1); [exact HL|]; apply tr_plural_Q;
+         [apply (alookup_forallb (atom_ok pt) s_plural kw pl Hkw Epl)|intro E; destruct (Hlit E) as [_ Hk]; eapply alookup_plural_lit; eassumption]). }
+      unfold tr_text in H.
+      destruct k; destruct args as [|a1 [|a2 [|a3 [|a4 r]]]]; try discriminate H; simpl in Hargs;
+        repeat (apply andb_true_iff in Hargs; destruct Hargs as [? Hargs]);
+        try (inversion H; subst; assumption).
+      - destruct (count_arg _); [|discriminate]. inversion H; subst. apply Hpick; auto. intro E. destruct (Hlit E) as [Hm _]. exact Hm.
+      - destruct (count_arg _); [|discriminate]. inversion H; subst. apply Hpick; auto. intro E. destruct (Hlit E) as [Hm _]. exact Hm.
+    Qed.
+
+    Lemma apply_filter_inv f v : filter_ok pt pf f = true -> Inv v -> trusted f v -> Inv (apply_filter true look f v).
+    Proof.
+      intros Hok Hv Htr. unfold filter_ok in Hok. apply andb_true_iff in Hok. destruct Hok as [Hpf Hargs].
       pose proof (q_filter f Hpf) as Hcl. pose proof (as_string_good v Hv) as Hs.
       destruct f; simpl in *.
       - (* escape *) apply good_markup, q_esc.
@@ -143,6 +223,14 @@ Section Generic.
         + destruct (tx s); auto.
         + destruct l; auto.
       - (* size *) exact I.
+      - (* translation filters *)
+        apply andb_true_iff in Hargs. destruct Hargs as [Hargs Hlit]. apply andb_true_iff in Hargs. destruct Hargs as [Hargs Hkw].
+        unfold trans_apply. destruct (tr_text true look TrCurrent k aem args kw v) as [t|] eqn:Et; [|exact I].
+        unfold Inv, good; simpl. intros _. apply Hcl.
+        + eapply tr_text_Q; try eassumption.
+          * intro E. subst aem. exact Htr.
+          * intro E. subst aem. simpl in Hlit. apply andb_true_iff in Hlit. exact Hlit.
+        + intro name. apply tr_resolve_Q. assumption.
       - (* opaque *) destruct (sf (as_string v)) eqn:E; simpl; [|apply good_plain].
         destruct k; simpl; try apply good_plain.
         + assumption.
@@ -153,18 +241,10 @@ Section Generic.
     Lemma eval_expr_inv e : expr_ok pt pf e = true -> Inv (eval_expr true look e).
     Proof.
       induction e as [a|e IH f]; simpl; intro H; [apply eval_atom_inv; assumption|].
-      apply andb_true_iff in H. destruct H as [He Hf]. apply apply_filter_inv; auto.
+      apply andb_true_iff in H. destruct H as [H Hin]. apply andb_true_iff in H. destruct H as [He Hf]. apply apply_filter_inv; auto.
+      unfold trusted. destruct f; auto. destruct aem; auto. simpl in Hin. destruct e as [[s|x]|]; try discriminate. simpl. eexists; split; reflexivity.
     Qed.
 
-    Lemma out_str_Q s : good s -> Q (out_str true s).
-    Proof. apply esc_arg_Q. Qed.
-
-    Lemma to_liquid_string_Q v : Inv v -> Q (to_liquid_string true v).
-    Proof.
-      destruct v; simpl; auto.
-      - apply esc_arg_Q.
-      - intro H. apply concat_Q. induction H; simpl; constructor; auto. apply esc_arg_Q; assumption.
-    Qed.
   End Filters.
 
   (* ---------------------------------------------------------------- states *)
@@ -242,6 +322,19 @@ Section Generic.
     assert (Hstep : Q o1 /\ state_inv st1).
     { assert (Hlook : forall x, Inv (lookup st x)) by (intro; apply lookup_inv; assumption).
       destruct s; simpl in Hs.
+      - (* translate tag *)
+        apply andb_true_iff in Hs. destruct Hs as [Hs Hpl]. apply andb_true_iff in Hs. destruct Hs as [Hb Hsing].
+        cbv zeta in Estep. injection Estep as Eo Est. rewrite <- Eo, <- Est. clear Eo Est. split; [|assumption].
+        set (st1' := push_scope st (bind_args true st binds)).
+        assert (Hst1 : state_inv st1') by (apply push_scope_inv; [assumption|apply bind_args_inv; assumption]).
+        assert (Hseg : forall m, forallb (fun g => match g with MText t => pt t | MVar _ => true end) m = true ->
+                       Q (concat (map (fun g => match g with MText t => t | MVar x => to_liquid_string true (lookup st1' x) end) m))).
+        { intros m Hm. apply concat_Q. induction m as [|g r IHm]; simpl in *; constructor.
+          - apply andb_true_iff in Hm. destruct Hm as [Hg _]. destruct g; [apply q_lit; assumption|].
+            apply to_liquid_string_Q. apply lookup_inv. assumption.
+          - apply IHm. apply andb_true_iff in Hm. tauto. }
+        destruct plural as [p0|]; [|apply Hseg; assumption].
+        match goal with |- context [if ?c then _ else _] => destruct c end; apply Hseg; assumption.
       - inversion Estep; subst. auto.
       - inversion Estep; subst. split; auto. apply to_liquid_string_Q. apply eval_expr_inv; assumption.
       - inversion Estep; subst. split; auto. apply set_local_inv; auto. apply eval_expr_inv; assumption.
@@ -358,6 +451,39 @@ Section AllP.
     - apply IH. unfold allP in *. cbn [forallb]. rewrite Hc, Ha. reflexivity.
   Qed.
 
+  Lemma allP_span f : forall n s, allP s = true -> allP (snd (span_upto f n s)) = true.
+  Proof.
+    induction n as [|n IH]; intros s H; simpl; auto. destruct s as [|c r]; auto.
+    destruct (f c); [|exact H]. simpl in H. apply andb_true_iff in H. destruct H as [_ Hr].
+    specialize (IH r Hr). destruct (span_upto f n r). exact IH.
+  Qed.
+
+  Lemma allP_placeholder s nm rest : allP s = true -> placeholder s = Some (nm, rest) -> allP rest = true.
+  Proof.
+    intros H E. unfold placeholder in E. pose proof (allP_span is_word (length s) s H) as Hs.
+    destruct (span_upto is_word (length s) s) as [a b]. simpl in Hs.
+    destruct a; [discriminate|]. destruct b as [|c1 [|c2 b']]; try discriminate.
+    destruct ((c1 =? 41) && (c2 =? 115)); [|discriminate]. inversion E; subst.
+    simpl in Hs. apply andb_true_iff in Hs. destruct Hs as [_ Hs]. apply andb_true_iff in Hs. tauto.
+  Qed.
+
+  Lemma allP_fmt_go r : (forall k, allP (r k) = true) -> forall fuel prev s, allP s = true -> allP (fmt_go r fuel prev s) = true.
+  Proof.
+    intro Hr. induction fuel as [|f IH]; intros prev s H; [exact H|].
+    destruct s as [|c s']; [reflexivity|]. pose proof H as Hcs. simpl in H. apply andb_true_iff in H. destruct H as [Hc Hs'].
+    cbn [fmt_go]. destruct ((c =? 37) && negb prev).
+    - destruct s' as [|c1 r1]; [exact Hcs|].
+      assert (Hkeep : allP (c :: fmt_go r f true (c1 :: r1)) = true) by (simpl; rewrite Hc; apply IH; exact Hs').
+      destruct (c1 =? 40); [|exact Hkeep].
+      destruct (placeholder r1) as [[nm rest]|] eqn:E; [|exact Hkeep].
+      rewrite allP_app, Hr. simpl. apply IH. simpl in Hs'. apply andb_true_iff in Hs'. destruct Hs' as [_ Hr1].
+      eapply allP_placeholder; [exact Hr1|exact E].
+    - simpl. rewrite Hc. apply IH. exact Hs'.
+  Qed.
+
+  Lemma allP_format r t : (forall k, allP (r k) = true) -> allP t = true -> allP (format_message r t) = true.
+  Proof. intros. unfold format_message. apply allP_fmt_go; assumption. Qed.
+
   Lemma allP_nat_to_str : (forall c, is_digit c = true -> P c = true) -> forall n, allP (nat_to_str n) = true.
   Proof. intros Hd n. unfold nat_to_str. apply allP_digits; auto. Qed.
 End AllP.
@@ -432,6 +558,7 @@ Proof.
   - apply allP_replace; auto.
   - apply allP_slice; auto.
   - apply allP_split; auto.
+  - apply allP_format; auto.
   - destruct k; auto. intros. apply allP_map; auto. intros c Hc. destruct (c =? 43); auto.
 Qed.
 
@@ -671,9 +798,9 @@ Qed.
 Lemma clean_esc_arg s : clean (tx s) = true -> esc_arg s = tx s.
 Proof. intro H. unfold esc_arg. destruct (sf s); auto. apply escape_clean. exact H. Qed.
 
-(* the filters of the identity theorem: everything but split (no arrays: str(list) holds quotes) and the three text functions
-   that are modelled by their flag only *)
-Definition plain_filters (f : filter) : bool := match f with FSplit _ | FOpaque _ _ => false | _ => true end.
+(* the filters of the identity theorem: everything but split (no arrays: str(list) holds quotes), the three text functions
+   that are modelled by their flag only, and the translation filters (the translate TAG is covered) *)
+Definition plain_filters (f : filter) : bool := match f with FSplit _ | FOpaque _ _ | FTrans _ _ _ _ => false | _ => true end.
 
 (* two values with the same clean text (the Markup flags may differ) *)
 Inductive Rv : value -> value -> Prop :=
@@ -777,7 +904,7 @@ Section Identity.
   Lemma eval_expr_rel e : expr_ok clean plain_filters e = true -> Rv (eval_expr true look e) (eval_expr false look' e).
   Proof.
     induction e as [a|e IH f]; simpl; intro H; [apply eval_atom_rel; assumption|].
-    apply andb_true_iff in H. destruct H as [He Hf]. apply apply_filter_rel; auto.
+    apply andb_true_iff in H. destruct H as [H _]. apply andb_true_iff in H. destruct H as [He Hf]. apply apply_filter_rel; auto.
   Qed.
 End Identity.
 
@@ -872,6 +999,12 @@ Proof.
   assert (Hlook : forall x, Rv (lookup s x) (lookup s' x)) by (intro; apply lookup_rel; assumption).
   assert (Hstep : Rres
     (match st with
+     | STranslate binds sing plur =>
+         let ns := bind_args true s binds in
+         let n := match alookup s_count ns with Some v => tag_count v | None => 1%nat end in
+         let msg := match plur with Some p => if Nat.eqb n 1 then sing else p | None => sing end in
+         let st1 := push_scope s ns in
+         Ok (concat (map (fun g => match g with MText t => t | MVar x => to_liquid_string true (lookup st1 x) end) msg), s)
      | SText t => Ok (t, s)
      | SOut e => Ok (to_liquid_string true (eval true s e), s)
      | SAssign x e => Ok ([], set_local s x (eval true s e))
@@ -889,6 +1022,12 @@ Proof.
          let '(out, _) := r in Ok (out, s)
      end)
     (match st with
+     | STranslate binds sing plur =>
+         let ns := bind_args false s' binds in
+         let n := match alookup s_count ns with Some v => tag_count v | None => 1%nat end in
+         let msg := match plur with Some p => if Nat.eqb n 1 then sing else p | None => sing end in
+         let st1 := push_scope s' ns in
+         Ok (concat (map (fun g => match g with MText t => t | MVar x => to_liquid_string false (lookup st1 x) end) msg), s')
      | SText t => Ok (t, s')
      | SOut e => Ok (to_liquid_string false (eval false s' e), s')
      | SAssign x e => Ok ([], set_local s' x (eval false s' e))
@@ -906,6 +1045,31 @@ Proof.
          let '(out, _) := r in Ok (out, s')
      end)).
   { destruct st; simpl in Hs.
+    - (* translate tag *)
+      apply andb_true_iff in Hs. destruct Hs as [Hs Hpl]. apply andb_true_iff in Hs. destruct Hs as [Hb Hsing]. cbv zeta.
+      pose proof (bind_args_rel _ _ binds Hst Hb) as Hns.
+      assert (En : match alookup s_count (bind_args true s binds) with Some v => tag_count v | None => 1%nat end
+                 = match alookup s_count (bind_args false s' binds) with Some v => tag_count v | None => 1%nat end).
+      { pose proof (alookup_rel s_count _ _ Hns) as Hr.
+        destruct (alookup s_count (bind_args true s binds)), (alookup s_count (bind_args false s' binds)); simpl in Hr; try contradiction; auto.
+        destruct Hr; simpl; auto. rewrite H. reflexivity. }
+      rewrite <- En.
+      set (msg := match plural with Some p => if Nat.eqb _ 1 then singular else p | None => singular end).
+      assert (Hmsg : forallb (fun g => match g with MText t => clean t | MVar _ => true end) msg = true).
+      { unfold msg. destruct plural; [|exact Hsing]. match goal with |- context [if ?c then _ else _] => destruct c end; assumption. }
+      assert (Hp : Rstate (push_scope s (bind_args true s binds)) (push_scope s' (bind_args false s' binds))).
+      { destruct Hst as (A & B & C & D). repeat split; simpl; auto. }
+      assert (Hseg : forall m, forallb (fun g => match g with MText t => clean t | MVar _ => true end) m = true ->
+          concat (map (fun g => match g with MText t => t | MVar x => to_liquid_string true (lookup (push_scope s (bind_args true s binds)) x) end) m)
+          = concat (map (fun g => match g with MText t => t | MVar x => to_liquid_string false (lookup (push_scope s' (bind_args false s' binds)) x) end) m)
+          /\ clean (concat (map (fun g => match g with MText t => t | MVar x => to_liquid_string true (lookup (push_scope s (bind_args true s binds)) x) end) m)) = true).
+      { induction m as [|g r IHm]; simpl; intro Hm; [split; reflexivity|].
+        apply andb_true_iff in Hm. destruct Hm as [Hg Hr]. destruct (IHm Hr) as [E1 C1].
+        destruct g.
+        - split; [rewrite E1; reflexivity|]. unfold clean in *. rewrite allP_app, Hg, C1. reflexivity.
+        - destruct (to_liquid_string_rel _ _ (lookup_rel _ _ x Hp)) as [E2 C2]. split; [rewrite E1, E2; reflexivity|].
+          unfold clean in *. rewrite allP_app, C2, C1. reflexivity. }
+      destruct (Hseg msg Hmsg) as [E C]. simpl. split; [exact E|split; [exact C|exact Hst]].
     - simpl. split; [reflexivity|split; [exact Hs|exact Hst]].
     - destruct (to_liquid_string_rel _ _ (eval_expr_rel _ _ Hlook e Hs)) as [E C]. simpl. split; [exact E|split; [exact C|exact Hst]].
     - simpl. split; [reflexivity|split; [reflexivity|]]. destruct Hst as (A & B & C & D). repeat split; simpl; auto.
@@ -943,8 +1107,9 @@ Proof.
       match goal with |- Rres (do r <- ?a; _) (do r <- ?b; _) => destruct a as [[o1 s1]|e|], b as [[o1' s1']|e'|] end; simpl in *; try contradiction; auto.
       destruct IH as (Eo & Co & _). split; [exact Eo|split; [exact Co|exact Hst]]. }
   cbn [exec].
-  match goal with |- Rres (do r <- ?a; _) (do r <- ?b; _) => destruct a as [[o1 s1]|e|], b as [[o1' s1']|e'|] end; simpl in *; try contradiction; auto.
-  destruct Hstep as (Eo & Co & Rs). specialize (IH _ _ rest Hrest Rs).
+  match goal with |- Rres (do r <- ?a; _) (do r <- ?b; _) =>
+    pose proof (Hstep : Rres a b) as Hab; clear Hstep; destruct a as [[o1 s1]|e|], b as [[o1' s1']|e'|] end; simpl in Hab |- *; try contradiction; auto.
+  destruct Hab as (Eo & Co & Rs). specialize (IH _ _ rest Hrest Rs).
   destruct (exec true f s1 rest) as [[o2 s2]|e|], (exec false f s1' rest) as [[o2' s2']|e'|]; simpl in *; try contradiction; auto.
   destruct IH as (Eo2 & Co2 & Rs2). subst. split; [reflexivity|split; [|exact Rs2]]. unfold clean in *. rewrite allP_app, Co, Co2. reflexivity.
 Qed.
@@ -973,3 +1138,28 @@ Proof.
   destruct (exec true 200 s0 p) as [[o s]|e|]; destruct (exec false 200 s0 p) as [[o' s']|e'|]; unfold Rres in H; try contradiction; auto.
   destruct H as (-> & _). reflexivity.
 Qed.
+
+(* ---------------------------------------------------------------- translation filters: the seeded variants are told apart *)
+Definition look_of (data : list (str * value)) (x : str) : value := match alookup x data with Some v => v | None => VNil end.
+Definition d_hostile : list (str * value) :=
+  [([120], VS (plain [60; 98; 62])); ([121], VS (plain [60; 105; 62; 39]))].          (* x = <b>   y = <i>' *)
+Definition m_hello : str := [72; 105; 32; 37; 40; 97; 41; 115].                       (* Hi %(a)s *)
+Definition text_of (v : value) : str := match v with VS s => tx s | _ => [] end.
+
+Lemma translation_variants_refuted :
+  (* registered by hand (autoescape_message = False), autoescape on:  'Hi %(a)s' | t: a: x *)
+  (let run vr := text_of (trans_apply true (look_of d_hostile) vr TT false [] [([97], AVar [120])] (VS (markup m_hello))) in
+   no_raw (run TrCurrent) = true /\ no_raw (run TrVarsOnlyIfAem) = false /\ run TrPluralStrRaw = run TrCurrent) /\
+  (* registered by extra=True (autoescape_message = True), autoescape on:  'one' | ngettext: y, '2' *)
+  (let run vr := text_of (trans_apply true (look_of d_hostile) vr TNgettext true [AVar [121]; ALit [50]] [] (VS (markup [111; 110; 101]))) in
+   no_raw (run TrCurrent) = true /\ no_raw (run TrPluralStrRaw) = false /\ run TrVarsOnlyIfAem = run TrCurrent) /\
+  (* the same plural through npgettext is not affected by that variant (it is specific to ngettext) *)
+  (let run vr := text_of (trans_apply true (look_of d_hostile) vr TNpgettext true [ALit [99]; AVar [121]; ALit [50]] [] (VS (markup [111; 110; 101]))) in
+   run TrPluralStrRaw = run TrCurrent).
+Proof. repeat split; vm_compute; reflexivity. Qed.
+
+(* why a filter registered by hand needs a literal message: its left value is printed as it is (by design: the message is trusted) *)
+Lemma hand_registration_trusts_message :
+  no_raw (text_of (trans_apply true (look_of d_hostile) TrCurrent TT false [] [] (VS (plain [60; 98; 62])))) = false /\
+  no_raw (text_of (trans_apply true (look_of d_hostile) TrCurrent TT true [] [] (VS (plain [60; 98; 62])))) = true.
+Proof. split; vm_compute; reflexivity. Qed.
